@@ -1,3 +1,4 @@
 import Cicada.Thm.C06c
 import Cicada.Thm.C06d
+import Cicada.Thm.C06stale
 /-! every theorem file of property C06 -/
